@@ -46,16 +46,53 @@ def check_C16(report, tier, seed):
     S.suite_validate(report, tier, seed, "C16")
 
 
+ENGINE_RULE = ("state-aware random walks over the engine: user publish/subscribe/unsubscribe/disconnect, open/close, service with "
+               "buffer capacities 4..4096 and prefill, write completions, clock advances to/around reported service times, a reference "
+               "broker answering timely, late, reordered (and in adversarial walks duplicated, wrong-type, unknown-id, garbage) over "
+               "all offline policies, both versions, both drain policies, retry limits, resolvers; distinct by the whole concrete script")
+
+
+def engine_check(prop, report, tier, seed, n_quick=160, n_thorough=6000, extra=None, **kw):
+    import suites_engine as S
+    report.rule = ENGINE_RULE
+    gv.theorem_obligations(report, f"GV/Props/{prop}.lean", f"GV.Props.{prop}", audit=True)
+    walks = S.run_walks(seed, tier, "engine", n_quick, n_thorough, **kw)
+    S.correspondence(report, walks, prop)
+    S.monitor(report, walks, prop)
+    if extra:
+        extra(report, walks, tier, seed)
+    return walks
+
+
+def check_C01(report, tier, seed): engine_check("C01", report, tier, seed)
+def check_C04(report, tier, seed): engine_check("C04", report, tier, seed)
+def check_C05(report, tier, seed): engine_check("C05", report, tier, seed)
+def check_C06(report, tier, seed): engine_check("C06", report, tier, seed)
+def check_C07(report, tier, seed): engine_check("C07", report, tier, seed)
+def check_C09(report, tier, seed): engine_check("C09", report, tier, seed)
+def check_C10(report, tier, seed): engine_check("C10", report, tier, seed)
+def check_C11(report, tier, seed): engine_check("C11", report, tier, seed, adversarial=True)
+def check_C14(report, tier, seed): engine_check("C14", report, tier, seed, snap_after_svc=True)
+def check_C15(report, tier, seed): engine_check("C15", report, tier, seed)
+def check_C18(report, tier, seed): engine_check("C18", report, tier, seed)
+
+
 def check_C17(report, tier, seed):
     import suites_alias as S
+    import suites_engine as E
     report.rule = ("resolver sessions: kind in {null, manual, lru(0..65535)}, 1-3 connections with server maxima 0..65535, up to 40 "
                    "resolutions over topic pools above and below the maximum; inbound sessions with alias 0/in range/above, empty topics; "
-                   "distinct by the whole session script")
+                   "plus engine walks (alias replay on the decoded client stream); distinct by the whole session script")
     gv.theorem_obligations(report, "GV/Props/C17.lean", "GV.Props.C17", audit=True)
     S.suite_alias(report, tier, seed, "C17")
+    walks = E.run_walks(seed, tier, "engine", 120, 4000)
+    E.correspondence(report, walks, "C17")
+    E.monitor(report, walks, "C17")
 
 
-CHECKS = {"C02": check_C02, "C03": check_C03, "C16": check_C16, "C17": check_C17}
+CHECKS = {"C01": check_C01, "C02": check_C02, "C03": check_C03, "C04": check_C04, "C05": check_C05, "C06": check_C06,
+          "C07": check_C07, "C09": check_C09, "C10": check_C10, "C11": check_C11, "C14": check_C14, "C15": check_C15,
+          "C16": check_C16, "C17": check_C17, "C18": check_C18}
 
 
 def main():
@@ -64,6 +101,9 @@ def main():
         print("usage: check <id> [--tier quick|thorough]")
         return 2
     prop = args[0]
+    if "--replay" in args:
+        import replay
+        return replay.main(args[args.index("--replay") + 1])
     tier = os.environ.get("VERIF_TIER", "quick")
     if "--tier" in args:
         tier = args[args.index("--tier") + 1]
